@@ -73,6 +73,12 @@ func init() {
 		Gen: func(tier string, emit func(interface{})) {
 			genMerges("vec", vecBounds(tier), func(c enum.MergeCase) { emit(c) })
 			genVecBigMerges(tier, func(c enum.MergeCase) { emit(c) })
+			// the same segment object twice in one merge (KNOWN FINDING for vectors, see known_findings.txt)
+			for _, i := range []int{0, 1, 2, 6} {
+				for _, opened := range []bool{false, true} {
+					emit(enum.MergeCase{Menu: "vec", Mode: 1026, Share: true, E: enum.Expr{In: []enum.Expr{enum.L(i, opened), enum.L(i, opened)}, Drops: [][]int{nil, nil}, DropOK: []bool{false, false}}})
+				}
+			}
 			genAlphabetMerges("vecA", []int{0, 1, 2, 3, 4, 5, 6, 7, 8}, tier, func(c enum.MergeCase) { emit(c) })
 		},
 		Run: func(ci interface{}, a *run.Acc) {
